@@ -65,10 +65,10 @@ def _zeros_cls(b):
 
 
 def _len_cls(n):
-    for lim in (0, 1, 4, 20, 21, 32, 33, 40, 90):
+    for lim in (0, 1, 4, 20, 21, 32, 33, 40, 90, 256, 512, 1024):
         if n <= lim:
             return "<=%d" % lim
-    return ">90"
+    return ">1024"
 
 
 def _char_cls(s):
@@ -670,7 +670,8 @@ def run(ctx):
     def on(stage):
         return only is None or stage in only
     ctx.rule = ("replay: every case MC_C11Replay prints (byte strings over {0,1,57,58,255} up to length 6, character strings over "
-                "alphabet/non-alphabet symbols, long zero-prefixed inputs, Base58Check payload list x corruption classes, "
+                "alphabet/non-alphabet symbols, long zero-prefixed inputs, byte strings of 186..1024 bytes, Base58Check payload list "
+                "(to 1020 bytes) x corruption classes, "
                 "(hrp, version symbol, length 0..42, pattern) grid, corruption classes of valid addresses) executed on pycoin; "
                 "distinct_nontrivial = distinct (record kind, input class, spec verdict/reason, length bucket) tuples")
     ctx.assumptions += [
@@ -721,7 +722,11 @@ def run(ctx):
         ground_truth(ctx)
     # ---- 3. spec -> code
     if on("b58"):
-        replay_mode(ctx, "MC_C11Replay_b58_q" if q else "MC_C11Replay_b58_t")
+        st, _ = replay_mode(ctx, "MC_C11Replay_b58_q" if q else "MC_C11Replay_b58_t")
+        lens = {(c[1], c[2]) for c in st.classes if c[0] == "b58enc"}
+        need = {(z, n) for z in ("lead0", "lead1", "leadN", "allzero") for n in ("<=256", "<=512", "<=1024")}
+        if need - lens:
+            raise MachineryError("vacuity: Base58 replay misses long inputs %s" % sorted(need - lens))
     if on("b58c"):
         r = ctx.tlc("MC_C11Replay", "MC_C11Replay_terms", workers=4, count=False)
         if len(r.records) < 100:
@@ -738,6 +743,9 @@ def run(ctx):
                     ("trunc", "checksum"), ("payload-flip", "checksum")}
             if need - seen:
                 raise MachineryError("vacuity: Base58Check replay misses classes %s" % sorted(need - seen))
+            lens = {(c[1], c[3]) for c in st.classes if c[0] == "b58c"}
+            if not {("valid", "<=512"), ("valid", "<=1024"), ("valid", ">1024")} <= lens:
+                raise MachineryError("vacuity: Base58Check replay has no long strings: %s" % sorted(lens))
         finally:
             os.unlink(hpath)
     if on("bits"):
@@ -751,6 +759,9 @@ def run(ctx):
         st, _ = replay_mode(ctx, "MC_C11Replay_corr_q" if q else "MC_C11Replay_corr_t", env={"C11_SEED": ctx.seed})
         # vacuity guard: every rejection rule of Bech32.tla decides at least one replayed case, and some cases are accepted
         seen = {c[2] for c in st.classes if c[0] == "corr"}
+        forms = {c[1] for c in st.classes if c[0] == "corr" and c[2] == "char-range"}
+        if not {"nonascii-lower", "nonascii-upper", "nonascii-mixed", "bad-char"} <= forms:
+            raise MachineryError("vacuity: character-range cases miss a class: %s" % sorted(forms))
         need = {"", "char-range", "mixed-case", "too-long", "no-separator", "empty-hrp", "short-data", "data-char", "checksum",
                 "hrp-mismatch", "no-version", "version", "padding-length", "padding-nonzero", "program-length", "wrong-constant"}
         if need - seen:
